@@ -56,7 +56,7 @@ def replay(mod, prop, path):
         payload = json.load(fh)
     check = payload["check"]
     fn = mod.CHECKS[check]
-    out = fn(payload["case"])
+    out = engine.Acc(prop).record(check, fn, payload["case"])
     if out.status == "bad" or (out.status == "known" and out.finding not in engine.open_findings(prop)):
         print(f"VIOLATION property={prop} replay={os.path.abspath(path)}")
         print(f"  check={check} kind={out.kind} detail={str(out.detail)[:600]}")
